@@ -92,6 +92,16 @@ Definition same_list {A} (eqb : A -> A -> bool) (a b : list A) : bool :=
 Definition link_eqb (a b : string * list string) : bool :=
   String.eqb (fst a) (fst b) && same_list String.eqb (snd a) (snd b).
 
+(* Routine.from_qref keeps linked_params as a mapping keyed by the source: two entries with the same source add up
+   (first occurrence fixes the position, targets are concatenated in order of appearance) *)
+Fixpoint add_link {T} (acc : list (string * list T)) (s : string) (ts : list T) : list (string * list T) :=
+  match acc with
+  | [] => [(s, ts)]
+  | (s', ts') :: rest => if String.eqb s' s then (s', (ts' ++ ts)%list) :: rest else (s', ts') :: add_link rest s ts
+  end.
+Definition merge_links {T} (li : list (string * list T)) : list (string * list T) :=
+  fold_left (fun acc l => add_link acc (fst l) (snd l)) li [].
+
 (* 0 = the real document's wiring strings are exactly the model's (as sets: qref sorts them), node by node *)
 Fixpoint wiring_cmp (fuel : nat) (a b : wiring) : list nat :=
   match fuel with
@@ -101,7 +111,7 @@ Fixpoint wiring_cmp (fuel : nat) (a b : wiring) : list nat :=
       | W n cn li ks, W n' cn' li' ks' =>
           (if String.eqb n n' then 0%nat else 1%nat)
             :: (if same_list pair_eqb cn cn' then 0%nat else 1%nat)
-            :: (if same_list link_eqb li li' then 0%nat else 1%nat)
+            :: (if same_list link_eqb (merge_links li) li' then 0%nat else 1%nat)
             :: (if Nat.eqb (List.length ks) (List.length ks') then 0%nat else 1%nat)
             :: flat_map (fun k => match find (fun k' => match k, k' with W x _ _ _, W y _ _ _ => String.eqb x y end) ks' with
                                   | Some k' => wiring_cmp f k k'
